@@ -301,6 +301,51 @@ Fixpoint suffixb (e s : string) : bool :=
 Definition dirs_free_of (sep name : string) : bool :=
   forallb (fun c => negb (suffixb sep c)) (removelast (split_slash name)).
 
+(* ------------------------------------------------------------------ several writes of one array *)
+(* a writer seen as a step on the caller's array: it returns the outcome and the array as the caller
+   finds it afterwards.  The code under test never modifies its argument. *)
+Definition write_step (cast : dtype -> N -> N) (a : api) (m : mem) : wres * mem := (write_api cast a m, m).
+
+Fixpoint run_seq (step : api -> mem -> wres * mem) (l : list api) (m : mem) : list wres * mem :=
+  match l with
+  | [] => ([], m)
+  | a :: l' =>
+      let (r, m1) := step a m in
+      let (rs, m2) := run_seq step l' m1 in
+      (r :: rs, m2)
+  end.
+Definition write_seq (cast : dtype -> N -> N) : list api -> mem -> list wres * mem := run_seq (write_step cast).
+
+(* a variant that is NOT the behaviour under test (kept to show what the sequence cases exclude):
+   byte-swapping a writeable big-endian buffer in place "to avoid a copy" leaves the caller's array
+   holding the swapped values although its dtype still says big-endian *)
+Definition bswap (w : nat) (n : N) : N := of_le (to_be w n).
+Definition write_step_inplace (cast : dtype -> N -> N) (writeable : bool) (a : api) (m : mem) : wres * mem :=
+  let touched := match a with ADepth | AMatches => false | _ => m_big m && writeable end in
+  (write_api cast a m,
+   if touched then {| m_dtype := m_dtype m; m_shape := m_shape m;
+                      m_elems := map (bswap (isz (m_dtype m))) (m_elems m);
+                      m_big := m_big m; m_layout := m_layout m |}
+   else m).
+
+(* ------------------------------------------------------------------ listing and a store of files *)
+(* image_ids_from_feature_dirpath / image_ids_from_feature_tar: file name minus the extension *)
+Definition id_of_member (ext s : string) : option string :=
+  if suffixb ext s then Some (substring 0 (String.length s - String.length ext) s) else None.
+
+(* files of one feature type (directory or tar archive), keyed by member name; the last write wins *)
+Definition fstore := list (string * list N).
+Definition fs_write (k : string) (bs : list N) (f : fstore) : fstore := (k, bs) :: f.
+Fixpoint fs_read (k : string) (f : fstore) : option (list N) :=
+  match f with
+  | [] => None
+  | (k', bs) :: f' => if String.eqb k k' then Some bs else fs_read k f'
+  end.
+Fixpoint opt_list {A} (l : list (option A)) : list A :=
+  match l with [] => [] | Some x :: l' => x :: opt_list l' | None :: l' => opt_list l' end.
+Definition fs_ids (ext : string) (f : fstore) : list string :=
+  ssort (dedup (opt_list (map (fun e => id_of_member ext (fst e)) f))).
+
 (* ------------------------------------------------------------------ correspondence *)
 Inductive wobs := WOk | WRefused | WIndexErr | WOther.
 Inductive robs :=
@@ -342,7 +387,14 @@ Inductive case :=
 (* get_matches_fullpath((a, b), ftype, root), tar member name, Matches.lexical_order(a, b) *)
 | CMatchPath (root ftype a b : string) (opath : string) (otar : option string) (oorder : string * string)
 (* get_depth_map_fullpath(root, name) *)
-| CRecPath (root name : string) (opath : string).
+| CRecPath (root name : string) (opath : string)
+(* the SAME array object written through several front ends in turn: outcome and file bytes of every write,
+   and the element bit patterns / dtype of the caller's array afterwards *)
+| CSeq (m : mem) (cast_tbl : list (N * N)) (steps : list api) (owrites : list (wobs * list N))
+       (oafter : list N) (odtype_kept : bool)
+(* two images of one feature type written one after the other (second may be the same name), then the first
+   is read back and the image ids are listed *)
+| CTwo (kind : string) (st : store) (n1 n2 : string) (m1 m2 : mem) (ord1 : robs) (oids : list string).
 
 Definition check_case (c : case) : bool :=
   match c with
@@ -364,4 +416,22 @@ Definition check_case (c : case) : bool :=
       && match otar with Some t => String.eqb (matches_tar_member a b) t | None => true end
       && eqb (lexical_order a b) oorder
   | CRecPath root name opath => String.eqb (record_path root name) opath
+  | CSeq m tbl steps owrites oafter odtype_kept =>
+      let (rs, m') := write_seq (fun _ n => lookupN n tbl) steps m in
+      eqb (map (fun r => match r with
+                         | Written bs => (0%N, bs) | Refused => (1%N, []) | IndexErr => (2%N, [])
+                         end) rs)
+          (map (fun o => match o with
+                         | (WOk, bs) => (0%N, bs) | (WRefused, _) => (1%N, []) | (WIndexErr, _) => (2%N, [])
+                         | (WOther, _) => (3%N, [])
+                         end) owrites)
+      && eqb (m_elems m') oafter && odtype_kept
+  | CTwo kind st n1 n2 m1 m2 ord1 oids =>
+      let f := fs_write (tar_member kind n2) (dump m2) (fs_write (tar_member kind n1) (dump m1) []) in
+      let c := match m_shape m1 with [_; c] => Z.of_N c | _ => 1%Z end in
+      match fs_read (tar_member kind n1) f with
+      | Some bs => robs_eqb (robs_of (read_bytes st (m_dtype m1) c bs)) ord1
+      | None => false
+      end
+      && eqb (fs_ids (ext_of kind) f) oids
   end.
